@@ -88,7 +88,8 @@ def check_present(ctx, P):
     # the options abidiff implements by blanking corpus fields (--no-corpus-path, --no-architecture)
     allowed = {
         "get_path": {
-            "abigail::suppr::": "suppression matching on file names - excluded by the property's proviso",
+            "abigail::suppr::": "suppression matching on file names - excluded by the property's proviso (and only when the "
+                                "value flows nowhere else than into matches_binary_name, see path_flows_only_to)",
             "abigail::comparison::corpus_diff::get_pretty_representation":
                 "builds a diagnostic string that is never compared",
         },
@@ -113,12 +114,79 @@ def check_present(ctx, P):
                         par = f.parent(par)
                     if par is None or par.get("op") not in ("==", "!="):
                         why = None
+                if getter == "get_path" and why and f.q.startswith("abigail::suppr::"):
+                    bad_use = path_flows_only_to(P, f, n, ("matches_binary_name",))
+                    if bad_use:
+                        ctx.ob("R-PRESENT", "verdict closure: %s uses corpus::get_path() only to match file_name properties" % f.q,
+                               False, f.loc(n),
+                               "the path of the corpus - which --no-corpus-path blanks for both inputs - also reaches %s: a "
+                               "presentation option then changes what the suppression machinery computes" % bad_use)
+                        continue
                 ctx.ob("R-PRESENT", "verdict closure: %s reads corpus::%s()" % (f.q, getter), why is not None, f.loc(n),
                        why or "a blanked corpus field (--no-corpus-path / --no-architecture) is read by verdict code "
                        "in a way that is not the listed architecture comparison / suppression matching")
     for x in unresolved_in(P, seen)[:20]:
         ctx.unresolved.append(x)
     return seen
+
+
+def path_flows_only_to(P, f, node, sinks, depth=0):
+    """Follow the value of expression `node` (a call result) forward: through a local it initialises, through an
+    argument position into a repo callee's parameter (every use of that parameter, recursively).  Returns None when
+    every use ends as an argument of one of `sinks`, else a description of the first other use."""
+    from engine.facts import call_args as _ca
+    if depth > 4:
+        return "a call chain deeper than 4"
+
+    def uses_of_decl(g, decl_id):
+        out = []
+        for x in g.nodes():
+            if x["k"] == "DeclRefExpr" and x.get("d") == decl_id:
+                out.append(x)
+        return out
+
+    def classify_use(g, x):
+        """climb from a use to the consuming call"""
+        cur, par = x, g.parent(x)
+        while par is not None and par["k"] in ("ImplicitCastExpr", "MaterializeTemporaryExpr", "CXXBindTemporaryExpr",
+                                               "CXXConstructExpr", "ExprWithCleanups", "ParenExpr", "MemberExpr"):
+            if par["k"] == "MemberExpr":
+                # method called on the value (x.empty(), x.c_str()) : a read of the string itself
+                pp = g.parent(par)
+                if pp is not None and pp["k"] == "CXXMemberCallExpr":
+                    return "`%s`" % expr_str(g, pp)[:60]
+            cur, par = par, g.parent(par)
+        if par is None:
+            return None
+        if par["k"] == "VarDecl":
+            return follow_local(g, par.get("d"))
+        if par["k"] in ("CallExpr", "CXXMemberCallExpr"):
+            d = g.decl(par) or {}
+            if d.get("n") in sinks:
+                return None
+            args = _ca(par)
+            idx = next((i for i, a in enumerate(args) if any(y["i"] == cur["i"] for y in walk(a))), None)
+            callee = P.funcs.get(d.get("u"))
+            if callee is None or callee.dep or idx is None or idx >= len(callee.r["params"]):
+                return "`%s`" % expr_str(g, par)[:60]
+            for u in uses_of_decl(callee, callee.r["params"][idx]):
+                r = classify_use(callee, u) if depth < 4 else "a deep call chain"
+                if r:
+                    return "%s (in %s)" % (r, callee.n)
+            return None
+        if par["k"] in ("CXXOperatorCallExpr", "BinaryOperator"):
+            return "`%s`" % expr_str(g, par)[:60]
+        if par["k"] == "ReturnStmt":
+            return "a return value of %s" % g.n
+        return None
+
+    def follow_local(g, decl_id):
+        for u in uses_of_decl(g, decl_id):
+            r = classify_use(g, u)
+            if r:
+                return r
+        return None
+    return classify_use(f, node)
 
 
 # ------------------------------------------------------------------ R-NOLOC
